@@ -169,3 +169,47 @@ Print Assumptions C01_tag_vs_final.
 Theorem C01_tag_downgrade_general : forall (v v' : bool) (ds : list (list N)) (sep sep' : list N) (t1 t2 : btag) (n m : list N), ds <> [] -> Forall dstr ds -> sep_ok sep -> sep_ok sep' -> all_digits n = true -> all_digits m = true -> (rank t2 < rank t1)%N -> ver_lt (tagged v ds sep t1 n) (tagged v' ds sep' t2 m) = false.
 Proof. exact tag_downgrade_general. Qed.
 Print Assumptions C01_tag_downgrade_general.
+
+(* ---- Proofs.SemverTagE2E ---- *)
+From Coq Require Import List Bool NArith ZArith Arith.
+From BV Require Import Lib.PyStr Lib.Decimal Lib.Calendar Model.V2 Model.Pep440 Model.Cli Model.Lexid Proofs.DottedFacts Proofs.SemverTagE2E.
+Import ListNotations.
+Theorem C01_svt_test_cmd : forall (today : Z) (fl : flags) (ft : option (option ptag)) (a b c : N) (t : option (ptag * N)) (d : option Z), f_tag fl = option_map ltext ft -> match d with | Some _ => f_pin_date fl = false | None => True end -> let new := svt_new fl ft a b c t in test_cmd_v2 today (svt a b c t) P fl (option_map Some d) None = (if tagnum_on_final fl ft t then ExitErr else if accepted fl ft t then Exit0 new (to_pep440 new) else ExitErr) /\ (tagnum_on_final fl ft t = false -> accepted fl ft t = true -> ver_lt (svt a b c t) new = true) /\ (tagnum_on_final fl ft t = false -> accepted fl ft t = false -> ver_lt (svt a b c t) new = false).
+Proof. exact svt_test_cmd. Qed.
+Print Assumptions C01_svt_test_cmd.
+
+Theorem C01_svt_cmd_noflag : forall (today : Z) (fl : flags) (a b c : N) (t : option (ptag * N)) (d : option Z), f_tag fl = None -> f_tag_num fl = false -> part_flag fl = false -> date_ok fl d -> test_cmd_v2 today (svt a b c t) P fl (option_map Some d) None = ExitErr.
+Proof. exact svt_cmd_noflag. Qed.
+Print Assumptions C01_svt_cmd_noflag.
+
+Theorem C01_svt_cmd_parts : forall (today : Z) (fl : flags) (a b c : N) (t : option (ptag * N)) (d : option Z), f_tag fl = None -> f_tag_num fl = false -> part_flag fl = true -> date_ok fl d -> let new := svt (next_a fl a) (next_b fl b) (next_c fl c) (reset_num t) in test_cmd_v2 today (svt a b c t) P fl (option_map Some d) None = Exit0 new (to_pep440 new) /\ ver_lt (svt a b c t) new = true.
+Proof. exact svt_cmd_parts. Qed.
+Print Assumptions C01_svt_cmd_parts.
+
+Theorem C01_svt_cmd_tag : forall (today : Z) (fl : flags) (T : option ptag) (a b c : N) (t : option (ptag * N)) (d : option Z), f_tag fl = Some (ltext T) -> f_tag_num fl = false -> part_flag fl = false -> date_ok fl d -> let new := svt a b c (fresh_tag T) in test_cmd_v2 today (svt a b c t) P fl (option_map Some d) None = (if (trank (otag t) <? trank T)%N then Exit0 new (to_pep440 new) else ExitErr) /\ ver_lt (svt a b c t) new = (trank (otag t) <? trank T)%N.
+Proof. exact svt_cmd_tag. Qed.
+Print Assumptions C01_svt_cmd_tag.
+
+Theorem C01_svt_cmd_tagnum : forall (today : Z) (fl : flags) (a b c : N) (p : ptag) (n : N) (d : option Z), f_tag fl = None -> f_tag_num fl = true -> part_flag fl = false -> date_ok fl d -> let new := svt a b c (Some (p, (n + 1)%N)) in test_cmd_v2 today (svt a b c (Some (p, n))) P fl (option_map Some d) None = Exit0 new (to_pep440 new) /\ ver_lt (svt a b c (Some (p, n))) new = true.
+Proof. exact svt_cmd_tagnum. Qed.
+Print Assumptions C01_svt_cmd_tagnum.
+
+Theorem C01_svt_cmd_tagnum_final : forall (today : Z) (fl : flags) (ft : option (option ptag)) (a b c : N) (t : option (ptag * N)) (d : option Z), f_tag fl = option_map ltext ft -> f_tag_num fl = true -> next_otag ft t = None -> date_ok fl d -> test_cmd_v2 today (svt a b c t) P fl (option_map Some d) None = ExitErr.
+Proof. exact svt_cmd_tagnum_final. Qed.
+Print Assumptions C01_svt_cmd_tagnum_final.
+
+Theorem C01_svt_cmd_tag_parts : forall (today : Z) (fl : flags) (T : option ptag) (a b c : N) (t : option (ptag * N)) (d : option Z), f_tag fl = Some (ltext T) -> f_tag_num fl = false -> part_flag fl = true -> date_ok fl d -> let new := svt (next_a fl a) (next_b fl b) (next_c fl c) (fresh_tag T) in test_cmd_v2 today (svt a b c t) P fl (option_map Some d) None = Exit0 new (to_pep440 new) /\ ver_lt (svt a b c t) new = true.
+Proof. exact svt_cmd_tag_parts. Qed.
+Print Assumptions C01_svt_cmd_tag_parts.
+
+Theorem C01_svt_order : forall (a b c : N) (t : option (ptag * N)) (a' b' c' : N) (t' : option (ptag * N)), ver_lt (svt a b c t) (svt a' b' c' t') = match svt_cmp a b c t a' b' c' t' with | Lt => true | _ => false end /\ ver_le (svt a b c t) (svt a' b' c' t') = match svt_cmp a b c t a' b' c' t' with | Gt => false | _ => true end.
+Proof. exact svt_order. Qed.
+Print Assumptions C01_svt_order.
+
+Theorem C01_to_pep440_svt : forall (a b c : N) (t : option (ptag * N)), to_pep440 (svt a b c t) = dotted [a; b; c] ++ pep_suffix t.
+Proof. exact to_pep440_svt. Qed.
+Print Assumptions C01_to_pep440_svt.
+
+Theorem C01_invalid_tag_rejected : forall (today : Z) (old : list N) (fl : flags) (d : option (option Z)) (sv : option (list N)), validate_release_tag (f_tag fl) = false -> test_cmd_v2 today old P fl d sv = ExitErr.
+Proof. exact invalid_tag_rejected. Qed.
+Print Assumptions C01_invalid_tag_rejected.
